@@ -861,6 +861,10 @@ var engineCorpus = []corpusCase{
 		tplx: []kv{{"root_nor", "rot"}, {"foo_nor", "fu"}}, fn: map[string][]eFres{"lang1": []eFres{{Content: "nor", Set: []uint32{7}}, {Content: "", Set: []uint32{7}}, {Content: "xx", Set: []uint32{7}}}}, cfg: eCfg{FlagCount: 1}, inputs: []string{"", "1", "0", "1", "0"}},
 	{name: "lang-part3-only", nodes: [][3]string{{"root", "LOAD lang1 0; MOUT lbl1 1; HALT; INCMP foo 1", "hello"}, {"foo", "HALT; INCMP _ 0", "foo"}, {"_catch", "HALT; INCMP _ *", "catch"}},
 		tplx: []kv{{"root_swh", "habari"}, {"foo_swh", "fuu"}}, menu: []kv{{"lbl1_menu_swh", "rudi"}}, fn: map[string][]eFres{"lang1": []eFres{{Content: "swh", Set: []uint32{7}}}}, cfg: eCfg{FlagCount: 1}, inputs: []string{"", "1", "0"}},
+	{name: "browse-leak", nodes: [][3]string{{"root", "MNEXT nx 11; HALT; LOAD sk 0; MAP sk; HALT; INCMP _ 0", "root"}, {"_catch", "HALT; INCMP _ *", "catch"}},
+		fn: map[string][]eFres{"sk": st1("one\ntwo\nthree\nfour\nfive\nsix")}, cfg: eCfg{FlagCount: 1, Out: 20}, inputs: []string{"", "x", "y"}},
+	{name: "long-and-malformed", nodes: [][3]string{{"root", "HALT; INCMP foo 1", "root"}, {"foo", "HALT; INCMP _ 0", "foo"}, {"_catch", "HALT; INCMP _ *", "catch"}},
+		cfg: eCfg{FlagCount: 1}, inputs: []string{"", strings.Repeat("!", 300), "1"}},
 	{name: "first-terminate", nodes: [][3]string{{"root", "HALT; INCMP foo 1", "root"}, {"foo", "HALT; INCMP _ 0", "foo"}, {"_catch", "HALT; INCMP _ *", "catch"}},
 		cfg: eCfg{FlagCount: 1, First: []eFres{{Content: "hello"}, {Content: "blocked", Set: []uint32{6}}, {Content: "again"}}}, inputs: []string{"", "1", "0", "!bad", "1"}},
 	{name: "first-long-exit", nodes: [][3]string{{"root", "HALT; INCMP foo 1", "root"}, {"foo", "HALT; INCMP _ 0", "foo"}, {"_catch", "HALT; INCMP _ *", "catch"}},
